@@ -637,7 +637,12 @@ func TestC07Exhaustive(t *testing.T) {
 func TestC07Random(t *testing.T) {
 	col := evid.New("C07", "random-larger", "random sets of up to 12 services from the full generator (all forms incl. multi-return, result objects, aliases, groups) with 0-3 planted extra dependencies so that captive dependencies arise through every edge kind; cases with a cycle or a missing dependency are not judged (other properties); same two-way oracle; non-trivial = a long-lived and a scoped service connected through a non-plain edge")
 	defer col.Flush()
-	rapid.Check(t, func(rt *rapid.T) {
+	rapid.Check(t, propC07Random(col))
+}
+
+// propC07Random is the property of TestC07Random; the native fuzz target of the same name decodes its input through it.
+func propC07Random(col *evid.Collector) func(rt *rapid.T) {
+	return func(rt *rapid.T) {
 		o := kit.FullOpts()
 		o.MaxRegs = 12
 		cfg := kit.GenConfig(rt, o)
@@ -681,7 +686,7 @@ func TestC07Random(t *testing.T) {
 			}
 			rt.Fatalf("VIOLATION %s\nconfig: %s\nplanted: %v", f, cfg, planted)
 		}
-	})
+	}
 }
 
 // ---------- C08 ----------
@@ -689,7 +694,12 @@ func TestC07Random(t *testing.T) {
 func TestC08Build(t *testing.T) {
 	col := evid.New("C08", "drop-providers", "buildable configurations from which each provider registration is dropped with probability 0-40% (so plain, keyed, optional and group dependencies of singletons, scoped services, transients and initializer functions lose their provider); oracle (=>): if Build succeeds, resolving every registered identity from a fresh scope and from the provider never fails with service-not-found; (<=): if the reference finds no cycle, no captive dependency and no missing required dependency, Build must succeed; non-trivial = a required dependency of a scoped/transient/initializer is missing, or the set contains an initializer depending on a singleton, or an optional/group dependency without provider")
 	defer col.Flush()
-	rapid.Check(t, func(rt *rapid.T) {
+	rapid.Check(t, propC08Build(col))
+}
+
+// propC08Build is the property of TestC08Build; the native fuzz target of the same name decodes its input through it.
+func propC08Build(col *evid.Collector) func(rt *rapid.T) {
+	return func(rt *rapid.T) {
 		gopts := kit.FullOpts()
 		gopts.VoidAnyLife = true // initializer-shaped functions may be registered with any lifetime
 		cfg := kit.GenConfig(rt, gopts)
@@ -851,7 +861,7 @@ func TestC08Build(t *testing.T) {
 			}
 			rt.Fatalf("VIOLATION %s\nconfig: %s\ndropped: %v", f, canon, dropped)
 		}
-	})
+	}
 }
 
 func dedup(xs []string) []string {
